@@ -18,10 +18,11 @@ Dissent(kind) ==
     [] kind = "digest_t" -> {Art(PA, "h1"), Art(PB, "h1.t")}
     [] kind = "alg"     -> {Art(PA, "h1"), Art(PB, "s512:h1")}
     [] kind = "algmore" -> {Art(PA, "h1"), Art(PB, "both:h1")}
+    [] kind = "algdigest" -> {Art(PA, "h1"), Art(PB, "s512:h2")}
     [] kind = "extra"   -> Base \cup {Art(<<"c">>, "h1")}
     [] kind = "missing" -> {Art(PA, "h1")}
     [] kind = "empty"   -> {}
-Kinds7 == {"none", "path", "digest", "digest_f", "digest_m", "digest_l", "digest_t", "alg", "algmore", "extra", "missing", "empty"}
+Kinds7 == {"none", "path", "digest", "digest_f", "digest_m", "digest_l", "digest_t", "alg", "algmore", "algdigest", "extra", "missing", "empty"}
 
 \* the dissenting signer may also (or only) have run another COMMAND: that is merely warned about
 LinkFor(k, dissents, kind, side) ==
